@@ -60,6 +60,10 @@ CHECKS["C15"] = ("co", "§5 C15",
     "every adapter stack of depth <= 3 over {map, enumerate, take(0..=len+2), limit} (85 stack shapes) x {collect::<Vec<_>>, for_each, try_for_each} x {stream.co(), Vec::into_co_stream}, source length 0..=12, completion order decoupled from source order by the closure-future scripts; oracle: every map closure invoked exactly once per processed item and with the value the stack in front of it produces (enumerate = zero-based source position), processed items are exactly the first min(n, len) for the smallest take in the stack (none for n = 0), collect returns exactly the multiset of per-item outputs; 30 hand-written take(0) regression cases run first; std and alloc-only",
     "property-based testing: generated adapter stacks and completion orders vs. reference semantics (multiset, source index, exact prefix) read off the closure-invocation log")
 
+CHECKS["C18"] = ("autotraits", "§5 C18",
+    "generated programs type-checked by rustc against /repo (std and alloc-only): one generic obligation per type expression over the public constructors - every combinator x {array N in 1,2,3,5,12; Vec; tuple arity 0..12}, FutureGroup, StreamGroup, both Keyed views, both WaitUntil, in projection form and by their public names (stage A, exhaustive at depth 1), random nestings of depth 2-3 (stage B) - asserting Send under Send leaves and Sync under Send+Sync leaves, the leaves being type parameters so that each accepted obligation holds for every child type; plus one generic function per (source, adapter stack of depth <= 3, terminal) asserting that the opaque for_each / try_for_each / collect future is Send; a rejected obligation is shrunk structurally and the minimal program is the replay; a negative control (an Rc leaf) must be rejected",
+    "property-based testing over generated programs: random and exhaustive type expressions, oracle = the obligation must type-check (rustc trait solver), structural shrinking, negative control")
+
 NA = {
     "C11": "check under construction in this session (group model driver)",
     "C12": "check under construction in this session (group model driver)",
